@@ -452,6 +452,116 @@ Section Blocks.
   Qed.
 
   (* ---------------------------------------------------------------- *)
+  (** ** [map_void_func_over_blocks]: functions called for their OUTCOME (the numpy.testing
+      assertions).  [Vfun a k] is [None] when the library function returns and [Some e] when it
+      raises [e]; the wrapper runs it for block 0, 1, ... in a list comprehension, so the first
+      exception propagates and otherwise nothing is returned. *)
+  Variable Exn : Type.
+  Variable Vfun : list arg -> list (key * arg) -> option Exn.
+
+  Fixpoint first_exc (l : list (option Exn)) : option Exn :=
+    match l with [] => None | Some e :: _ => Some e | None :: r => first_exc r end.
+
+  Definition map_void_func_over_blocks (args : list arg) (kw : list (key * arg)) : res (option Exn) :=
+    let n := num_blocks args kw in
+    if Nat.eqb n 0 then Ok (Vfun args kw)
+    else match block_args_kwargs n args kw with
+         | Raise e => Raise e
+         | Ok l => Ok (first_exc (map (fun ak => Vfun (fst ak) (snd ak)) l))
+         end.
+
+  Lemma first_exc_none l : first_exc l = None <-> Forall (fun x => x = None) l.
+  Proof.
+    induction l as [|[e|] r IH]; cbn [first_exc].
+    - split; [constructor|reflexivity].
+    - split; [discriminate|]. intros H. inversion H; subst. discriminate.
+    - rewrite IH. split; [now constructor|]. intros H. now inversion H.
+  Qed.
+
+  Lemma first_exc_some l : first_exc l <> None <-> Exists (fun x => x <> None) l.
+  Proof.
+    rewrite first_exc_none. split.
+    - intros H. apply Exists_exists.
+      induction l as [|x r IH]; [exfalso; apply H; constructor|].
+      destruct x as [e|].
+      + exists (Some e). split; [now left|discriminate].
+      + destruct IH as [y [Hy Hn]].
+        * intros Hr. apply H. now constructor.
+        * exists y. split; [now right|exact Hn].
+    - intros H Hall. apply Exists_exists in H. destruct H as [y [Hy Hn]].
+      rewrite Forall_forall in Hall. now apply Hn, Hall.
+  Qed.
+
+  Theorem map_void_spec n args kw :
+    wf n (args ++ map snd kw) -> 0 < n -> has_blk (args ++ map snd kw) = true ->
+    map_void_func_over_blocks args kw =
+    Ok (first_exc (map (fun i => Vfun (map (pick i) args) (fmap (pick i) kw)) (seq 0 n))).
+  Proof.
+    intros Hwf Hn Hb. unfold map_void_func_over_blocks. rewrite (num_blocks_wf n); try assumption.
+    destruct (Nat.eqb_spec n 0) as [->|_]; [lia|].
+    rewrite block_args_kwargs_wf by assumption. rewrite map_map. reflexivity.
+  Qed.
+
+  (** the call returns exactly when the library function returns for EVERY block, and raises
+      exactly when it raises for SOME block (the exception of the first such block) *)
+  Theorem map_void_passes_iff n args kw :
+    wf n (args ++ map snd kw) -> 0 < n -> has_blk (args ++ map snd kw) = true ->
+    (map_void_func_over_blocks args kw = Ok None <->
+     forall i, i < n -> Vfun (map (pick i) args) (fmap (pick i) kw) = None).
+  Proof.
+    intros Hwf Hn Hb. rewrite (map_void_spec n) by assumption. split.
+    - intros H i Hi. injection H as H. rewrite first_exc_none, Forall_forall in H.
+      apply H. apply in_map_iff. exists i. split; [reflexivity|]. apply in_seq. lia.
+    - intros H. f_equal. apply first_exc_none, Forall_forall. intros x Hx.
+      apply in_map_iff in Hx. destruct Hx as [i [<- Hi]]. apply H. apply in_seq in Hi. lia.
+  Qed.
+
+  Theorem map_void_raises_iff n args kw :
+    wf n (args ++ map snd kw) -> 0 < n -> has_blk (args ++ map snd kw) = true ->
+    ((exists e, map_void_func_over_blocks args kw = Ok (Some e)) <->
+     exists i, i < n /\ Vfun (map (pick i) args) (fmap (pick i) kw) <> None).
+  Proof.
+    intros Hwf Hn Hb. rewrite (map_void_spec n) by assumption. split.
+    - intros [e H]. injection H as H.
+      assert (Hs : first_exc (map (fun i => Vfun (map (pick i) args) (fmap (pick i) kw)) (seq 0 n)) <> None) by congruence.
+      apply first_exc_some, Exists_exists in Hs. destruct Hs as [x [Hx Hne]].
+      apply in_map_iff in Hx. destruct Hx as [i [<- Hi]]. exists i. apply in_seq in Hi. split; [lia|exact Hne].
+    - intros [i [Hi Hne]].
+      destruct (first_exc (map (fun i => Vfun (map (pick i) args) (fmap (pick i) kw)) (seq 0 n))) as [e|] eqn:Ef.
+      + now exists e.
+      + exfalso. apply first_exc_none in Ef. rewrite Forall_forall in Ef. apply Hne, Ef.
+        apply in_map_iff. exists i. split; [reflexivity|]. apply in_seq. lia.
+  Qed.
+
+  (** two block arguments: outcome = conjunction over corresponding blocks, and whether the call
+      passes does not depend on the order of the blocks *)
+  Corollary map_void_zip_passes xs ys :
+    xs <> [] -> length xs = length ys ->
+    (map_void_func_over_blocks [Blk xs; Blk ys] [] = Ok None <->
+     forall x y, In (x, y) (combine xs ys) -> Vfun [Pln x; Pln y] [] = None).
+  Proof.
+    intros Hne Hl. rewrite (map_void_spec (length xs)).
+    - cbn [map fmap]. rewrite (map_seq_pick2 (fun a b => Vfun [a; b] [])) by exact Hl. split.
+      + intros H x y Hin. injection H as H. rewrite first_exc_none, Forall_forall in H.
+        apply (H (Vfun [Pln x; Pln y] [])). apply in_map_iff. now exists (x, y).
+      + intros H. f_equal. apply first_exc_none, Forall_forall. intros v Hv.
+        apply in_map_iff in Hv. destruct Hv as [[x y] [<- Hin]]. now apply H.
+    - repeat constructor. now symmetry.
+    - destruct xs; [contradiction|cbn; lia].
+    - reflexivity.
+  Qed.
+
+  Corollary map_void_order_independent xs ys xs' ys' :
+    xs <> [] -> xs' <> [] -> length xs = length ys -> length xs' = length ys' ->
+    (forall p, In p (combine xs ys) <-> In p (combine xs' ys')) ->
+    (map_void_func_over_blocks [Blk xs; Blk ys] [] = Ok None <->
+     map_void_func_over_blocks [Blk xs'; Blk ys'] [] = Ok None).
+  Proof.
+    intros H1 H2 L1 L2 Hp. rewrite !map_void_zip_passes by assumption.
+    split; intros H x y Hin; apply H; now apply Hp.
+  Qed.
+
+  (* ---------------------------------------------------------------- *)
   (** ** positional or keyword passing does not matter *)
 
   Section Signature.
